@@ -218,7 +218,7 @@ theorem Good.openRound {e : EP} (h : Good e) (r : OpenReq) (hp : r.port < 65536)
             · exact opens_filter h.opens _ x hx }
       simp only
       split
-      · exact { h1 with opens := fun x hx => h1.opens x (List.mem_filter.mp hx).1 }
+      · exact { h with rng := hrng, opens := opens_filter h.opens _ }
       · exact h1.enqFrame ⟨hfid, h.rwnd, hp⟩
 
 theorem Good.appOpen {e : EP} (h : Good e) (req : Nat) (host : Bytes) (port : Nat) (hp : port < 65536) :
